@@ -153,6 +153,10 @@ func runFit(w *harness.W, sess *vxh.Session, c fitCase, sample bool) bool {
 		time.Sleep(3 * time.Millisecond)
 	}
 	cw, ch := vi.CellSize()
+	if c.Proto == "sixel" && (cw == 0 || ch == 0) {
+		// the encoder clears its busy flag just after posting the Redraw
+		cw, ch = settledCellSize(vi)
+	}
 	w.Count("fits_"+c.Proto, 1)
 	if p := judgeFit(c, cw, ch); p != "" {
 		kv := strings.SplitN(p, "|", 2)
@@ -421,6 +425,20 @@ type frame struct {
 	Win map[string][2]int `json:"window,omitempty"`
 }
 
+// settledCellSize reads the cell size once the encoder has cleared its busy
+// flag (it does so just after posting the Redraw event; while the flag is set
+// CellSize reports 0x0). The pictures of the placement histories are never
+// empty.
+func settledCellSize(vi vaxis.Image) (int, int) {
+	for k := 0; k < 2000; k++ {
+		if w, h := vi.CellSize(); w > 0 && h > 0 {
+			return w, h
+		}
+		time.Sleep(time.Millisecond)
+	}
+	return vi.CellSize()
+}
+
 type plCase struct {
 	Proto  string   `json:"proto"`
 	Images [][2]int `json:"images"` // pixel sizes
@@ -469,7 +487,7 @@ func runPlacements(w *harness.W, sess *vxh.Session, c plCase, sample bool) bool 
 			w.Inconclusive("resize-did-not-complete")
 			return false
 		}
-		x.w, x.h = x.vi.CellSize()
+		x.w, x.h = settledCellSize(x.vi)
 		x.needUp, x.fresh = true, true
 		imgs[i] = x
 	}
@@ -489,7 +507,7 @@ func runPlacements(w *harness.W, sess *vxh.Session, c plCase, sample bool) bool 
 				w.Inconclusive("resize-did-not-complete")
 				return true
 			}
-			imgs[i].w, imgs[i].h = imgs[i].vi.CellSize()
+			imgs[i].w, imgs[i].h = settledCellSize(imgs[i].vi)
 			imgs[i].needUp, imgs[i].fresh = true, true
 		}
 		g0, s0 := mark()
